@@ -237,6 +237,36 @@ def rotateBlock (rotNum : Int) (b : Block) : Block :=
     boundary := b.boundary.map (rotBoundary rotNum)
     disp := b.disp.map (rotXY rotNum.toNat) }
 
+/-! ### the same functions on THREE-index arguments `(i, j, k)`
+
+Every symmetry function starts with `i, j = indices[:2]` (or reads `locator.indices` / `loc[:3]`): the axial index
+never takes part in a symmetry decision, and `rotateIndex` hands it through. -/
+
+/-- `_getSymmetricIdenticalsThird((i, j, k))`: `i, j = indices[:2]` -/
+def sym3K (c : Int × Int × Int) : List (Int × Int) := sym3 (c.1, c.2.1)
+
+/-- `HexGrid.getSymmetricEquivalents((i, j, k))` -/
+def hexEquivalentsK (sym : Nat) (c : Int × Int × Int) : Option (List (Int × Int)) :=
+  hexEquivalents sym (c.1, c.2.1)
+
+/-- `overlapsWhichSymmetryLine((i, j, k))`: `i, j = indices[:2]` -/
+def lineOfK (c : Int × Int × Int) : Nat := lineOf (c.1, c.2.1)
+
+/-- `isInFirstThird(locator)`: `getRingPos(locator.indices)` uses i, j only -/
+def inFirstThirdK (top : Bool) (c : Int × Int × Int) : Bool := inFirstThird top (c.1, c.2.1)
+
+/-- `HexGrid.locatorInDomain(locator, symmetryOverlap)` for a locator at any k -/
+def hexInDomainK (third overlap : Bool) (c : Int × Int × Int) : Bool := hexInDomain third overlap (c.1, c.2.1)
+
+/-- `HexGrid.rotateIndex(loc, rotations)` on the whole location: `i, j, k = loc[:3]`, the new location is
+`IndexLocation(newI, newJ, k, loc.grid)` -/
+def rotateLoc (rotations : Int) (c : Int × Int × Int) : Int × Int × Int := rotCell rotations c
+
+/-- centre of cell (i, j, k) of a 3-D hex grid (unit steps with a z row (0, 0, dz)): integer coefficients of x, y as
+in `coef`, z = k·dz -/
+def coef3 (cornersUp : Bool) (c : Int × Int × Int) : Int × Int × Int :=
+  ((coef cornersUp c.1 c.2.1).1, (coef cornersUp c.1 c.2.1).2, c.2.2)
+
 /-- `Assembly.rotate(rad)`: `for b in self: b.rotate(rad)` -/
 def rotateAssembly (rotNum : Int) (blocks : List Block) : List Block := blocks.map (rotateBlock rotNum)
 
